@@ -26,6 +26,8 @@ from scinumtools.dip import DIP, Format
 
 NAMES = ["a", "b", "c", "d", "e", "f", "gg", "hh", "x1", "y_2", "size", "mass", "flag", "label"]
 # box/box2 and cfg/cfgx share a prefix on purpose: child queries must not match siblings
+BIG_INTS = [9007199254740993, -1234567890123456789, 1234567890123456789, 4611686018427387905,
+            -9007199254740995, 72057594037927937]
 GROUPS = ["box", "sim", "out", "grp", "inner", "cfg", "box2", "cfgx"]
 WORDS = ["dog", "cat", "horse", "abc", "x", "New York", "run-1", "zeta", "A1"]
 FORMATS = [("[a-z]+", ["dog", "cat", "abc", "zeta"], ["A1", "New York", "X"]),
@@ -40,6 +42,8 @@ FORMATS = [("[a-z]+", ["dog", "cat", "abc", "zeta"], ["A1", "New York", "X"]),
 def num_close(a, b, tol=1e-12):
     if isinstance(a, bool) or isinstance(b, bool):
         return isinstance(a, (bool, np.bool_)) and isinstance(b, (bool, np.bool_)) and bool(a) == bool(b)
+    if isinstance(a, (int, np.integer)) and isinstance(b, (int, np.integer)):
+        return int(a) == int(b)        # integers are compared as integers (2**53 + 1 is not 2**53)
     try:
         fa, fb = float(a), float(b)
     except Exception:
@@ -832,6 +836,15 @@ class RoundGen:
             unit = None
             self.chain_valid = False
             self.fault_label = "constant"
+        if fault is None and typ == "int" and str(node["bits"]) == "64" and v is not None \
+                and not isinstance(v, list) and not node["options"] and node["condition"] is None \
+                and rng.random() < 0.35:
+            # integers beyond 2**53: exact in a 64-bit node, not in a float on the way there
+            v = rng.choice(BIG_INTS + ([18446744073709551557] if node["unsigned"] else []))
+            if node["unsigned"]:
+                v = abs(v)
+            unit = node["unit"] if (node["unit"] is not None and rng.random() < 0.5) else None
+            self.m.stats.probe("integer_beyond_2**53")
         st["value"] = v
         st["unit"] = unit
         if rng.random() < cfg.get("p_noise", 0):
@@ -2063,6 +2076,19 @@ class DipStoreMachine(Machine):
                 if v:
                     raise v
                 continue
+            if node["type"] == "int" and gv is not None:
+                # an integer node holds integers - exactly, also after a unit conversion and
+                # also element by element (a value that merely prints like one is not one)
+                leaves = np.asarray(gv, dtype=object).ravel().tolist()
+                odd = [x for x in leaves if isinstance(x, (bool, np.bool_, str)) or x is None
+                       or float(x) != math.floor(float(x))]
+                if odd:
+                    v = self._violation(t, "integer_node_holds_a_non_integer",
+                                        dict(detail_base, node=path, got=_j(gv), want=node["value"],
+                                             unit=node["unit"]), f"nonint/{role}")
+                    if v:
+                        raise v
+                    continue
             wu = node["unit"] if node["type"] in ("int", "float") else None
             if (gu or None) != (wu or None):
                 v = self._violation(t, "unit_differs",
